@@ -40,11 +40,12 @@ type line struct {
 	KReject  string `json:"k_reject"`
 	KRejectC string `json:"k_reject_cprime"`
 	// parse
-	Bytes     []int `json:"bytes"`
-	KK        int   `json:"kk"`
-	Accepted  bool  `json:"accepted"`
-	Reencodes bool  `json:"reencodes"`
-	HashOK    bool  `json:"hash_ok"`
+	Bytes     []int  `json:"bytes"`
+	KK        int    `json:"kk"`
+	Accepted  bool   `json:"accepted"`
+	Reencodes bool   `json:"reencodes"`
+	HashOK    bool   `json:"hash_ok"`
+	EkCanon   bool   `json:"ek_canon"`
 	Seed      string `json:"seed"`
 	Note      string `json:"note"`
 }
@@ -241,10 +242,39 @@ func main() {
 							return
 						}
 					}
-				}}} {
+				}}, {"ek-coef+q-rehash", nil}} {
 				b := append([]byte{}, refDk...)
-				d.f(b)
-				l := line{Ev: "parse-dk", Param: p.Name, Class: d.class, KK: p.K, HashOK: bytes.Equal(mlkemref.H(b[384*p.K:hoff]), b[hoff:hoff+32])}
+				if d.f == nil {
+					// the same spelling with the stored hash recomputed over the bytes that are there: both FIPS 203 7.3 checks pass, so
+					// the key is either refused as not well formed or kept and re-encoded byte for byte
+					ek := b[384*p.K : 384*p.K+384*p.K]
+					for idx := rng.Intn(256 * p.K); ; idx = (idx + 1) % (256 * p.K) {
+						o := 3 * (idx / 2)
+						var c int
+						if idx%2 == 0 {
+							c = int(ek[o]) | int(ek[o+1]&0x0f)<<8
+						} else {
+							c = int(ek[o+1]>>4) | int(ek[o+2])<<4
+						}
+						if c < 767 {
+							copy(ek, set12(ek, idx, c+mlkemref.Q))
+							break
+						}
+					}
+					copy(b[hoff:hoff+32], mlkemref.H(b[384*p.K:hoff]))
+				} else {
+					d.f(b)
+				}
+				canon := true
+				for idx := 0; idx < 256*p.K; idx++ {
+					o := 384*p.K + 3*(idx/2)
+					c := int(b[o]) | int(b[o+1]&0x0f)<<8
+					if idx%2 == 1 {
+						c = int(b[o+1]>>4) | int(b[o+2])<<4
+					}
+					canon = canon && c < mlkemref.Q
+				}
+				l := line{Ev: "parse-dk", Param: p.Name, Class: d.class, KK: p.K, HashOK: bytes.Equal(mlkemref.H(b[384*p.K:hoff]), b[hoff:hoff+32]), EkCanon: canon}
 				oc := vlib.Safe(60*time.Second, func() {
 					k, err := sch.UnmarshalBinaryPrivateKey(b)
 					l.Accepted = err == nil
